@@ -27,10 +27,10 @@ class Result:
 
 
 def run(entries, workname, design_L=None, design_ws=(), product_depth=8, do_product=True, do_traces=True,
-        tlc_procs=4, tlc_workers=4, timeout=1500, witness_jobs=True, keep_lex=False):
+        tlc_procs=4, tlc_workers=4, timeout=1500, witness_jobs=True, keep_lex=False, env=None):
     res = Result()
     t0 = time.time()
-    work = pipeline.run_harness(entries, workname)
+    work = pipeline.run_harness(entries, workname, env)
     res.wall['harness'] = time.time() - t0
     for e in entries:
         if e.construct_threw is not None:
